@@ -15,6 +15,10 @@ number has (`normal_mk`) — it restricts representations, not numbers.
 import CtyModel.Lemmas.GoctyRoundtrip
 import CtyModel.Lemmas.GoctyFloat
 import CtyModel.Lemmas.GoctySched
+import CtyModel.Lemmas.d18Compose
+import CtyModel.Lemmas.d18Num
+import CtyModel.Lemmas.d18Cval
+import CtyModel.Lemmas.d18ToCty
 import CtyModel.Generated.IntBounds
 namespace CtyModel
 namespace C18
@@ -255,7 +259,11 @@ theorem errors_otherwise (S : Sched) (v : Value) (T : GoTy) (hc : T.base.isCval 
 /-! ### "for unmarked values it never panics when given a non-nil pointer target" -/
 
 /-- `FromCtyValue(v, new(T))` does not panic for any value without marks (at any
-depth) and any target type — whatever the value's type, shape, nullness, knownness. -/
+depth) and any target type — whatever the value's type, shape, nullness, knownness.
+NB: for inputs outside the modelled fragment (capsule values, a set of two or more
+non-primitive members, a payload that is not of the kind its type dictates) the model
+answers `unmodelled`, which is "not a panic" for the wrong reason; `decode_total` below is
+the statement without that escape. -/
 theorem no_panic_unmarked (S : Sched) (v : Value) (T : GoTy) (h : v.containsMarked = false) :
     ∀ w, fromCtyS S v T ≠ .panic w := by
   intro w hw
@@ -308,9 +316,12 @@ big numbers (numbers).  `rtSide norm g T` (decidable) says:
   map, array or `cty.Value` (null cannot say at which level the nil was);
 * the `cty` tags of a struct are distinct and NFC, at least one field has one, and a
   field without a tag — which the bridge does not carry — holds its zero value;
-* no `cty.Value` below a slice, array or map (a cty list/map has one element type),
-  and no `cty.NilVal` (the invalid zero `cty.Value`) in a bridged position.
-The first two are exactly the two recorded known findings; see the counterexamples.
+* below a slice, array or map a `cty.Value` occurs only as the element type itself, the members
+  all of ONE non-dynamic type (`uniformCv`; a cty list/map has one element type — members of
+  different types are refused by `ToCtyValue`, `mixed_cval_refused`); no `cty.NilVal` (the invalid
+  zero `cty.Value`) in a bridged position.
+The first two are exactly the two recorded known findings (`roundtrip_nilptr_counterexample`,
+`roundtrip_nfc_*_counterexample`); the third has `roundtrip_untagged_counterexample`.
 Mis-tagged structs are excluded for a reason of their own: of two fields with one tag
 `structTagIndices` keeps the later (the earlier field is silently not bridged), and a tag
 that is not NFC never matches the normalised attribute name (`ToCtyValue` writes null for
@@ -475,6 +486,240 @@ def sampleG : GoVal :=
 example : hasTy sampleG sampleT = true ∧ rtSide id sampleG sampleT = true := by decide
 example : ∃ ty, bridgeType id sampleT = .ok ty := ⟨_, rfl⟩
 example : hasTy (.ptr .nilPtr) (.ptr (.ptr .str)) = true ∧ rtSide id (.ptr .nilPtr) (.ptr (.ptr .str)) = true := by decide
+
+/-! ### d18: the same clauses without the escapes the audit found
+
+"never panics" as totality on the modelled fragment; "ok iff representable" for big.Int,
+big.Float and numeric targets behind pointers; the shape clause for objects (stray and
+missing attributes); containers of `cty.Value`. -/
+
+/-- Totality ("never panics", not by leaving the model): for every value whose payload is of
+the kind its type dictates at every depth (C06: every `cty.Value` is), without marks, without
+capsules, and whose sets have at most one member or a primitive element type, and for EVERY
+target type and schedule, `FromCtyValue` returns — a decoded Go value or an error. -/
+theorem decode_total (S : Sched) (v : Value) (T : GoTy) (h : modelled v.ty v.v = true) :
+    (∃ g, fromCtyS S v T = .ok g) ∨ ∃ c, fromCtyS S v T = .err c :=
+  isOkOrErr_cases (fromCtyP_total S v.ty v.v T h)
+
+/-- `modelled` holds no marker (so `decode_total` is about unmarked values, as the property is) -/
+theorem modelled_is_unmarked (v : Value) (h : modelled v.ty v.v = true) : v.containsMarked = false :=
+  modelled_unmarked v.v v.ty h
+
+/-- Integers behind pointers (`*int8`, `**uint16`, …): the same "ok iff whole and in range",
+the stored value behind `n` fresh non-nil pointers. -/
+theorem int_ok_iff_ptr (S : Sched) (x : Num) (hx : normalNum x = true) (n : Nat) (w : IntW) (s : Bool) (g : GoVal) :
+    fromCtyS S ⟨.number, .n x⟩ (ptrN n (.int w s)) = .ok g ↔
+      ∃ k : Int, IsTheInt x k ∧ lo w.bits s ≤ k ∧ k ≤ hi w.bits s ∧ g = wrapPtr n (.int k) := by
+  unfold fromCtyS
+  rw [fromCtyP_number_ptrN S x n (.int w s) rfl, mapRes_ok_iff]
+  constructor
+  · rintro ⟨a, ha, rfl⟩
+    obtain ⟨k, h1, h2, h3, rfl⟩ := (fromNum_int_ok_iff x hx w s a).mp ha
+    exact ⟨k, h1, h2, h3, rfl⟩
+  · rintro ⟨k, h1, h2, h3, rfl⟩
+    exact ⟨.int k, (fromNum_int_ok_iff x hx w s _).mpr ⟨k, h1, h2, h3, rfl⟩, rfl⟩
+
+/-- … and otherwise `FromCtyValue` itself (not only `fromNum`) returns an error, at any pointer depth -/
+theorem int_err_otherwise_ptr (S : Sched) (x : Num) (hx : normalNum x = true) (n : Nat) (w : IntW) (s : Bool)
+    (h : ¬ ∃ k : Int, IsTheInt x k ∧ lo w.bits s ≤ k ∧ k ≤ hi w.bits s) :
+    ∃ c, fromCtyS S ⟨.number, .n x⟩ (ptrN n (.int w s)) = .err c := by
+  obtain ⟨c, hc⟩ := int_err_otherwise x hx w s h
+  refine ⟨c, ?_⟩
+  unfold fromCtyS
+  rw [fromCtyP_number_ptrN S x n (.int w s) rfl, hc]; rfl
+
+/-- Floats behind pointers: as `float_ok_iff`, the stored value behind `n` pointers. -/
+theorem float_ok_iff_ptr (S : Sched) (x : Num) (n : Nat) (is32 : Bool) (g : GoVal) :
+    fromCtyS S ⟨.number, .n x⟩ (ptrN n (.float is32)) = .ok g ↔
+      ∃ f, g = wrapPtr n (.flt f) ∧ f = (if is32 then Num.f64to32 x.toF64.1 else x.toF64.1) ∧
+        (x.isInf = true ∨ f.isInf = false) := by
+  unfold fromCtyS
+  rw [fromCtyP_number_ptrN S x n (.float is32) rfl, mapRes_ok_iff]
+  constructor
+  · rintro ⟨a, ha, rfl⟩
+    obtain ⟨f, rfl, h2, h3⟩ := (float_ok_iff x is32 a).mp ha
+    exact ⟨f, rfl, h2, h3⟩
+  · rintro ⟨f, rfl, h2, h3⟩
+    exact ⟨.flt f, (float_ok_iff x is32 _).mpr ⟨f, rfl, h2, h3⟩, rfl⟩
+
+/-- big.Int (at any pointer depth): decoding succeeds iff the number is whole, and then stores
+exactly that integer — no width limit. -/
+theorem bigInt_ok_iff (S : Sched) (x : Num) (hx : normalNum x = true) (n : Nat) (g : GoVal) :
+    fromCtyS S ⟨.number, .n x⟩ (ptrN n .bigInt) = .ok g ↔ ∃ k : Int, IsTheInt x k ∧ g = wrapPtr n (.bigInt k) := by
+  unfold fromCtyS
+  rw [fromCtyP_number_ptrN S x n .bigInt rfl, mapRes_ok_iff]
+  constructor
+  · rintro ⟨a, ha, rfl⟩
+    obtain ⟨k, h1, rfl⟩ := (fromNum_bigInt_ok_iff x hx a).mp ha
+    exact ⟨k, h1, rfl⟩
+  · rintro ⟨k, h1, rfl⟩
+    exact ⟨.bigInt k, (fromNum_bigInt_ok_iff x hx _).mpr ⟨k, h1, rfl⟩, rfl⟩
+
+/-- … a fraction or an infinity is refused by big.Int with an error -/
+theorem bigInt_err_otherwise (S : Sched) (x : Num) (hx : normalNum x = true) (n : Nat)
+    (h : ¬ ∃ k : Int, IsTheInt x k) : ∃ c, fromCtyS S ⟨.number, .n x⟩ (ptrN n .bigInt) = .err c := by
+  refine ⟨"value must be a whole number", ?_⟩
+  unfold fromCtyS
+  rw [fromCtyP_number_ptrN S x n .bigInt rfl, fromNum_bigInt_err x hx h]; rfl
+
+/-- big.Float (at any pointer depth) accepts every number — finite of any precision, or infinite —
+and stores it as it is. -/
+theorem bigFloat_stores_exactly (S : Sched) (x : Num) (n : Nat) :
+    fromCtyS S ⟨.number, .n x⟩ (ptrN n .bigFloat) = .ok (wrapPtr n (.bigFloat x)) := by
+  unfold fromCtyS
+  rw [fromCtyP_number_ptrN S x n .bigFloat rfl]; rfl
+
+/-- "shape mismatches return an error", objects: an object is decoded into a struct (behind any
+number of pointers) iff no tagged field that can not be nil lacks its attribute and every
+attribute decodes into the field tagged with its name — in particular every attribute HAS such a
+field; the struct then holds the decoded attributes and zero values elsewhere.  For every
+schedule (Go's map order). -/
+theorem object_ok_iff (S : Sched) (names : List String) (atys : List Ty) (opt : List Bool) (cs : List Payload)
+    (T : GoTy) (tags : List String) (tys : List GoTy) (hT : T.base = .struct tags tys) (g : GoVal) :
+    fromCtyS S ⟨.object names atys opt, .smap names cs⟩ T = .ok g ↔
+      missingRequired names (effTags tags) tys = false ∧
+      ∃ gs, fromCtyA S.next [] names atys cs (effTags tags) tys = gs.map Res.ok ∧
+        g = wrapPtr T.depth (.struct tags (assemble names gs (effTags tags) tys)) :=
+  fromCtyP_object_ok_iff S names atys opt cs T tags tys hT g
+
+/-- … an attribute that no tagged field carries (a "stray" one — e.g. the typo `prot` for an
+optional `port`) is refused with an error under every schedule, whatever else the object holds or
+omits: its value is never silently dropped.  (`lookupTag k (effTags tags) tys = none`: no field's
+effective `cty` tag is `k`.) -/
+theorem errors_object_stray (S : Sched) (names : List String) (atys : List Ty) (opt : List Bool) (cs : List Payload)
+    (T : GoTy) (tags : List String) (tys : List GoTy) (hT : T.base = .struct tags tys)
+    (hm : modelledZ atys cs = true) (hl : names.length = atys.length)
+    (k : String) (hk : k ∈ names) (hs : lookupTag k (effTags tags) tys = none) :
+    ∃ c, fromCtyS S ⟨.object names atys opt, .smap names cs⟩ T = .err c :=
+  fromCtyP_object_stray S names atys opt cs T tags tys hT hm hl k hk hs
+
+/-- … and so is an object that lacks the attribute of a field that can not be nil -/
+theorem errors_object_missing (S : Sched) (names : List String) (atys : List Ty) (opt : List Bool) (cs : List Payload)
+    (T : GoTy) (tags : List String) (tys : List GoTy) (hT : T.base = .struct tags tys)
+    (hm : missingRequired names (effTags tags) tys = true) :
+    ∃ c, fromCtyS S ⟨.object names atys opt, .smap names cs⟩ T = .err c :=
+  ⟨_, fromCtyP_object_missing S names atys opt cs T tags tys hT hm⟩
+
+/-- the near miss of the seeded change C18c, evaluated: `struct{Name string "name"; Port *int "port"}`
+given `{name, prot}` (the optional `port` omitted, a stray `prot` present) is refused, while `{name}` alone
+is accepted with a nil `Port`; `{name, port, extra}` and `{port}` are refused. -/
+theorem object_near_miss_witnesses (S : Sched) :
+    let T : GoTy := .struct ["name", "port"] [.str, .ptr (.int .wInt true)]
+    let web : Payload := .s "web"
+    let n8080 : Payload := .n (Num.ofInt 8080)
+    (∃ c, fromCtyS S ⟨.object ["name", "prot"] [.string, .number] [false, false], .smap ["name", "prot"] [web, n8080]⟩ T = .err c) ∧
+    fromCtyS S ⟨.object ["name"] [.string] [false], .smap ["name"] [web]⟩ T = .ok (.struct ["name", "port"] [.str "web", .nilPtr]) ∧
+    (∃ c, fromCtyS S ⟨.object ["extra", "name", "port"] [.bool, .string, .number] [false, false, false],
+        .smap ["extra", "name", "port"] [.b true, web, n8080]⟩ T = .err c) ∧
+    (∃ c, fromCtyS S ⟨.object ["port"] [.number] [false], .smap ["port"] [n8080]⟩ T = .err c) := by
+  refine ⟨?_, ?_, ?_, ?_⟩
+  · exact errors_object_stray S _ _ _ _ _ _ _ rfl (by decide) rfl "prot" (by decide) (by decide)
+  · exact (object_ok_iff S _ _ _ _ _ _ _ rfl _).mpr ⟨by decide, [.str "web"], rfl, rfl⟩
+  · exact errors_object_stray S _ _ _ _ _ _ _ rfl (by decide) rfl "extra" (by decide) (by decide)
+  · exact errors_object_missing S _ _ _ _ _ _ _ rfl (by decide)
+
+/-- Containers of embedded dynamic values — `[]cty.Value`, `[n]cty.Value`, `map[string]cty.Value` —
+round-trip exactly when the members are all of one type `t` (not the dynamic pseudo-type; `t.equals t`
+holds for every well-formed type, `C07.equals_iff_eq`).  (d18: `rtSide` used to exclude every `cty.Value`
+below a container; it now admits this case — `uniformCv` — so `roundtrip_partial` covers it at any
+nesting, e.g. as a struct field; this is the statement on its own.) -/
+theorem roundtrip_cval_containers (norm : String → String) (ks : List String) (ws : List Value) (t : Ty)
+    (hne : ws ≠ []) (hty : ∀ w ∈ ws, w.ty = t) (hd : isDynTy t = false) (heq : Ty.equals t t = true)
+    (hks : ks.map norm = ks) :
+    (∃ v, toCty norm (.slice (ws.map .cval)) (.list .dyn) = .ok v ∧
+      ∀ S, fromCtyS S v (.slice .cval) = .ok (.slice (ws.map .cval))) ∧
+    (∃ v, toCty norm (.arr (ws.map .cval)) (.list .dyn) = .ok v ∧
+      ∀ S, fromCtyS S v (.array ws.length .cval) = .ok (.arr (ws.map .cval))) ∧
+    (∃ v, toCty norm (.map ks (ws.map .cval)) (.map .dyn) = .ok v ∧
+      ∀ S, fromCtyS S v (.map .cval) = .ok (.map ks (ws.map .cval))) :=
+  ⟨⟨_, (rt_cval_slice norm ws t hne hty hd heq).1, (rt_cval_slice norm ws t hne hty hd heq).2⟩,
+   ⟨_, (rt_cval_array norm ws t hne hty hd heq).1, (rt_cval_array norm ws t hne hty hd heq).2⟩,
+   ⟨_, (rt_cval_map norm ks ws t hne hks hty hd heq).1, (rt_cval_map norm ks ws t hne hks hty hd heq).2⟩⟩
+
+/-- members of different types have no cty list or map: `ToCtyValue` REFUSES them with an error
+("exact or refuses"; repaired in /repo 99f9cb6 — before, `cty.ListVal` panicked) -/
+theorem mixed_cval_refused :
+    (∃ c, toCty id (.slice [.cval ⟨.string, .s "a"⟩, .cval ⟨.number, .n (Num.ofInt 1)⟩]) (.list .dyn) = .err c) ∧
+    (∃ c, toCty id (.map ["a", "b"] [.cval ⟨.bool, .b true⟩, .cval ⟨.string, .null⟩]) (.map .dyn) = .err c) :=
+  ⟨⟨_, rfl⟩, ⟨_, rfl⟩⟩
+
+/-- the third exclusion of `rtSide` is a genuine (documented) non-round-trip: a field without a
+`cty` tag is not bridged, so a non-zero value in it comes back as zero -/
+theorem roundtrip_untagged_counterexample (S : Sched) :
+    let T : GoTy := .struct ["a", ""] [.int .w8 true, .int .w16 true]
+    let g : GoVal := .struct ["a", ""] [.int 1, .int 5]
+    hasTy g T = true ∧ bridgeType id T = .ok (.object ["a"] [.number] [false]) ∧
+    toCty id g (.object ["a"] [.number] [false]) = .ok ⟨.object ["a"] [.number] [false], .smap ["a"] [.n (Num.ofInt 1)]⟩ ∧
+    fromCtyS S ⟨.object ["a"] [.number] [false], .smap ["a"] [.n (Num.ofInt 1)]⟩ T = .ok (.struct ["a", ""] [.int 1, .int 0]) := by
+  exact ⟨by decide, rfl, rfl, (object_ok_iff S _ _ _ _ _ _ _ rfl _).mpr ⟨by decide, [.int 1], rfl, rfl⟩⟩
+
+/-- "Exact or refuses" composes (for every schedule): a list is decoded into a slice / an array, a
+map into a Go map, a tuple into a struct iff every member is decoded into the element / field type
+(arrays and tuples: and the lengths agree), and the result holds exactly the decoded members. -/
+theorem members_ok_iff (S : Sched) (ety : Ty) (etys : List Ty) (ks : List String) (cs : List Payload) (n : Nat) (E : GoTy)
+    (tags : List String) (tys : List GoTy) (g : GoVal) :
+    (fromCtyS S ⟨.list ety, .seq cs⟩ (.slice E) = .ok g ↔ ∃ gs, fromCtyL S ety cs E = gs.map Res.ok ∧ g = .slice gs) ∧
+    (fromCtyS S ⟨.list ety, .seq cs⟩ (.array n E) = .ok g ↔
+      cs.length = n ∧ ∃ gs, fromCtyL S ety cs E = gs.map Res.ok ∧ g = .arr gs) ∧
+    (fromCtyS S ⟨.map ety, .smap ks cs⟩ (.map E) = .ok g ↔ ∃ gs, fromCtyL S ety cs E = gs.map Res.ok ∧ g = .map ks gs) ∧
+    (fromCtyS S ⟨.tuple etys, .seq cs⟩ (.struct tags tys) = .ok g ↔
+      tys.length = etys.length ∧ ∃ gs, fromCtyZ S [] etys cs tys = gs.map Res.ok ∧ g = .struct tags gs) :=
+  ⟨fromCtyP_list_slice_ok_iff S ety cs (.slice E) E rfl g, fromCtyP_list_array_ok_iff S ety cs (.array n E) n E rfl g,
+   fromCtyP_map_ok_iff S ety ks cs (.map E) E rfl g, fromCtyP_tuple_ok_iff S etys cs (.struct tags tys) tags tys rfl g⟩
+
+/-- … so a refusal at depth is a refusal of the whole: a list (of modelled members) one of whose members
+is refused — an unknown, a null into a non-nilable element, a number that does not fit — is refused with an
+error, at any pointer depth of the target; the member is not skipped. -/
+theorem errors_nested_member (S : Sched) (ety : Ty) (cs : List Payload) (T : GoTy) (E : GoTy)
+    (hT : T.base = .slice E) (hm : modelledL ety cs = true) (c : Payload) (hc : c ∈ cs)
+    (he : ∃ e, fromCtyP S [] ety c E = .err e) : ∃ e, fromCtyS S ⟨.list ety, .seq cs⟩ T = .err e :=
+  fromCtyP_list_member_refused S ety cs T E hT hm c hc he
+
+/-- for instance an unknown inside a list of numbers, into `*[]int8` -/
+example (S : Sched) : ∃ e, fromCtyS S ⟨.list .number, .seq [.n (Num.ofInt 1), .unk .unref]⟩ (.ptr (.slice (.int .w8 true))) = .err e :=
+  errors_nested_member S .number _ _ (.int .w8 true) rfl (by decide) (.unk .unref) (by simp)
+    ⟨_, fromCtyP_unknown S [] .number .unref (.int .w8 true) rfl⟩
+
+/-- Not demanded by the property (its "never panics" clause is about `FromCtyValue`), recorded because
+the audit asked for it: `ToCtyValue` does not panic on any Go value that holds no NaN (and whose
+map keys are NFC), whatever the wanted cty type — conforming to the Go value or not. -/
+theorem tocty_no_panic (norm : String → String) (g : GoVal) (ty : Ty) (h : noNaN norm g = true) :
+    ∀ w, toCty norm g ty ≠ .panic w := by
+  intro w hw
+  have := toCtyG_noPanic norm g true ty h
+  unfold toCty at hw
+  rw [hw] at this
+  cases this
+
+/-- … while a NaN does make it panic (`big.Float.SetFloat64(NaN)`); the property excludes NaN -/
+theorem tocty_nan_panics : toCty id .nan .number = .panic "NaN" ∧
+    toCty id (.slice [.flt (.fin false 1 0 53), .nan]) (.list .number) = .panic "NaN" := ⟨rfl, rfl⟩
+
+/-- `roundtrip_partial` does reach containers of `cty.Value`: a struct with a `[]cty.Value` and a
+`map[string]cty.Value` field (the harness type `c18S8`) meets its side condition -/
+example :
+    let T : GoTy := .struct ["l", "m", "n"] [.slice .cval, .map .cval, .int .wInt true]
+    let g : GoVal := .struct ["l", "m", "n"]
+      [.slice [.cval ⟨.string, .s "a"⟩, .cval ⟨.string, .unk .unref⟩],
+       .map ["k"] [.cval ⟨.list .number, .seq []⟩], .int 3]
+    hasTy g T = true ∧ rtSide id g T = true ∧ ∃ ty, bridgeType id T = .ok ty := by
+  refine ⟨by decide, by decide, _, rfl⟩
+example : rtSide id (.slice [.cval ⟨.string, .s "a"⟩, .cval ⟨.number, .n (Num.ofInt 1)⟩]) (.slice .cval) = false := by decide
+
+/-! non-vacuity of the d18 hypotheses -/
+example : noNaN id sampleG = true := by decide
+example : modelled (.object ["l", "s"] [.list .number, .set (.tuple [.bool])] [false, false])
+    (.smap ["l", "s"] [.seq [.n (Num.ofInt 1), .null, .unk .unref], .sset [0] [.seq [.b true]]]) = true := by decide
+example : ptrN 2 (.int .w8 true) = .ptr (.ptr (.int .w8 true)) := rfl
+example (S : Sched) : fromCtyS S ⟨.number, .n (Num.ofInt 127)⟩ (ptrN 2 (.int .w8 true)) = .ok (.ptr (.ptr (.int 127))) := by rfl
+example (S : Sched) : fromCtyS S ⟨.number, .n (Num.mk false 3 (-1) 64)⟩ (ptrN 1 .bigInt) = .err "value must be a whole number" := by rfl
+example : ¬ ∃ k : Int, IsTheInt (Num.mk false 3 (-1) 64) k := by
+  rintro ⟨k, hk⟩
+  simp [IsTheInt, Num.mk, Num.norm, Num.normFuel] at hk
+  omega
+example : (∀ w ∈ [(⟨.string, .s "a"⟩ : Value), ⟨.string, .unk .unref⟩], w.ty = .string) ∧ isDynTy .string = false ∧
+    Ty.equals .string .string = true := by
+  refine ⟨by simp, rfl, by decide⟩
 
 end C18
 end CtyModel
